@@ -183,9 +183,18 @@ typedef amgcl::static_matrix<double, 2, 2> BV;
 typedef amgcl::static_matrix<double, 2, 1> BR;
 typedef amgcl::backend::builtin<BV> BB;
 
-// A (x) I_2 + I (x) [[c,-c],[-c,c]]: SPD, diagonally dominant M-matrix with 2x2 block structure
-static std::shared_ptr<crsd> block_system(const crsd &A, double c) {
-    int n = A.nrows; std::vector<std::vector<std::pair<int,double>>> rows(2 * n);
+// block view of a scalar SPD diagonally dominant M-matrix of even size: consecutive unknowns form a
+// 2x2 block (general, non-commuting blocks); every second case additionally couples the two unknowns
+// of a node, A (x) I_2 + I (x) [[c,-c],[-c,c]] (commuting blocks)
+static std::shared_ptr<crsd> block_system(const crsd &A, double c, bool kron) {
+    int n = A.nrows;
+    if (!kron) {
+        int m = n - n % 2; std::vector<std::vector<std::pair<int,double>>> rows(m);
+        for (int i = 0; i < m; ++i) { double lost = 0; for (ptrdiff_t p = A.ptr[i]; p < A.ptr[i+1]; ++p) { if (A.col[p] < m) rows[i].push_back({(int)A.col[p], A.val[p]}); else lost += A.val[p]; } (void)lost; }
+        // block_matrix needs structurally complete 2x2 blocks only where entries exist; missing entries are zero-filled
+        return vr::from_rows(m, m, rows);
+    }
+    std::vector<std::vector<std::pair<int,double>>> rows(2 * n);
     for (int i = 0; i < n; ++i) for (ptrdiff_t p = A.ptr[i]; p < A.ptr[i+1]; ++p) { int j = A.col[p]; double v = A.val[p];
         if (j == i) { rows[2*i].push_back({2*i, v + c}); rows[2*i].push_back({2*i+1, -c}); rows[2*i+1].push_back({2*i, -c}); rows[2*i+1].push_back({2*i+1, v + c}); }
         else { rows[2*i].push_back({2*j, v}); rows[2*i+1].push_back({2*j+1, v}); } }
@@ -194,9 +203,9 @@ static std::shared_ptr<crsd> block_system(const crsd &A, double c) {
 }
 
 template <template <class> class C, template <class> class R>
-static void obs_block(const char *cname, const char *rname, std::shared_ptr<crsd> As, vr::rng &g, const cfg &c) {
+static void obs_block(const char *cname, const char *rname, std::shared_ptr<crsd> As, vr::rng &g, const cfg &c, bool kron) {
     typedef amgcl::amg<BB, C, R> BAMG;
-    auto K = block_system(*As, 0.3 + g.unit());
+    auto K = block_system(*As, 0.3 + g.unit(), kron);
     int n = K->nrows, nb = n / 2;
     typename BAMG::params prm; prm.ncycle = c.ncycle; prm.npre = c.npre; prm.npost = c.npost; prm.pre_cycles = c.pre_cycles; prm.coarse_enough = c.ce; prm.direct_coarse = c.dc;
     std::unique_ptr<BAMG> amg, amg4;
@@ -257,15 +266,15 @@ int main(int argc, char **argv) {
             obs_case(A, c, g, true, fam == 0 ? "grid" : "graph");
         }
         // block-valued hierarchies (2x2 static_matrix): typed compositions
-        int breps = vr::env_int("VERIF_BREPS", th ? 24 : 6);
+        int breps = vr::env_int("VERIF_BREPS", th ? 40 : 12);
         for (int r = 0; r < breps; ++r) {
             auto As = r % 2 ? real_graph(g, g.range(25, 60), 0.06, 10.0) : real_grid(g, g.range(5, 8), g.range(4, 7), 10.0);
             cfg c = random_cfg(g, As->nrows); c.ce = g.range(2, 6); c.ncycle = 1 + r % 2; c.npost = c.npre;
             switch (r % 4) {
-                case 0: obs_block<amgcl::coarsening::smoothed_aggregation, amgcl::relaxation::spai0>("smoothed_aggregation", "spai0", As, g, c); break;
-                case 1: obs_block<amgcl::coarsening::smoothed_aggregation, amgcl::relaxation::ilu0>("smoothed_aggregation", "ilu0", As, g, c); break;
-                case 2: c.ncycle = 2; obs_block<amgcl::coarsening::aggregation, amgcl::relaxation::damped_jacobi>("aggregation", "damped_jacobi", As, g, c); break;
-                case 3: obs_block<amgcl::coarsening::smoothed_aggregation, amgcl::relaxation::gauss_seidel>("smoothed_aggregation", "gauss_seidel", As, g, c); break;
+                case 0: obs_block<amgcl::coarsening::smoothed_aggregation, amgcl::relaxation::spai0>("smoothed_aggregation", "spai0", As, g, c, (r / 4) % 3 == 2); break;
+                case 1: obs_block<amgcl::coarsening::smoothed_aggregation, amgcl::relaxation::ilu0>("smoothed_aggregation", "ilu0", As, g, c, (r / 4) % 3 == 2); break;
+                case 2: c.ncycle = 2; obs_block<amgcl::coarsening::aggregation, amgcl::relaxation::damped_jacobi>("aggregation", "damped_jacobi", As, g, c, (r / 4) % 3 == 2); break;
+                case 3: obs_block<amgcl::coarsening::smoothed_aggregation, amgcl::relaxation::gauss_seidel>("smoothed_aggregation", "gauss_seidel", As, g, c, (r / 4) % 3 == 2); break;
             }
         }
     }
